@@ -710,3 +710,77 @@ def c11_i(ctx):
     if n_sym < 3:
         ctx.undecided('expected symbolic derivative checks for LCBSC and MaxVar, got {} '
                       'cases'.format(n_sym))
+
+
+@obligation('C11-j', 'T14 T8', 'RandMaxVar samples log(evaluate) and hands NUTS its derivative '
+            'evaluate_gradient / evaluate', floor=3,
+            necessary='NUTS driven by a gradient that is not the derivative of the log density it '
+                      'samples does not leave that density invariant')
+def c11_j(ctx):
+    from .. import symdiff as sd
+    from ..ratfun import Rat, Unsupported
+    base = ctx.cls(ACQ)
+    rmv = [c for c in base.all_subclasses() if 'acquire' in c.methods and
+           ctx.calls(c.methods['acquire'], 'mcmc.nuts(*_)')]
+    if len(rmv) != 1:
+        raise AnchorMissing('the acquisition class that samples with mcmc.nuts')
+    acq = rmv[0].methods['acquire']
+    exa = ctx.ex(acq)
+    nested = [f for f in acq.module.all_functions if getattr(f, "outer", None) is acq]
+    byname = dict((f.name, f) for f in nested)
+    nc = ctx.calls(acq, 'mcmc.nuts(*_)')[0]
+    if len(nc.args) < 4 or not all(isinstance(a, ast.Name) for a in nc.args[2:4]):
+        ctx.undecided('nuts is not called with (n, init, logpdf, gradient) by name')
+    L, G = byname.get(nc.args[2].id), byname.get(nc.args[3].id)
+    if L is None or G is None:
+        raise AnchorMissing('nested log-density / gradient functions of the acquisition sampler')
+    # the same log density is used by the Metropolis alternative and the start-point test
+    mc = ctx.calls(acq, 'mcmc.metropolis(*_)')
+    ok = bool(mc) and all(len(c.args) >= 3 and isinstance(c.args[2], ast.Name) and
+                          c.args[2].id == L.name for c in mc)
+    ctx.check(ok, acq, 'both samplers target the same log density', '', 'metropolis and nuts are '
+              'given different log densities', fn=acq, node=mc[0] if mc else nc)
+    alg = sd.Algebra()
+    E = alg.base('E', 'dE')
+
+    def leaf_for(f):
+        x = ('param', f.params[0])
+
+        def leaf(t):
+            if t[0] == 'call' and t[1][0] == 'attr' and \
+                    (t[1][1] in (('param', 'self'), ('name', 'self')) or
+                     (t[1][1][0] == 'closure' and t[1][1][1] == 'self')) and \
+                    t[2] and t[2][0] == x:
+                if t[1][2] == 'evaluate':
+                    return E
+                if t[1][2] == 'evaluate_gradient':
+                    return Rat.sym('dE')
+            return None
+        return leaf
+
+    def finite_returns(f):
+        ex = ctx.ex(f)
+        out = []
+        for r in returns(f):
+            t = ex.term(r.value)
+            if polarity(t, lambda x: x in (('global', 'numpy.inf'), ('global', 'math.inf'))) \
+                    in (NEG, POS) and not contains(t, 'self.evaluate(*_)') and \
+                    not contains(t, '_.evaluate(*_)'):
+                continue
+            out.append((r, t))
+        return out
+    try:
+        fl = finite_returns(L)
+        fg = finite_returns(G)
+        if len(fl) != 1 or len(fg) != 1:
+            ctx.undecided('expected one finite return in each nested function ({} / {})'.format(
+                len(fl), len(fg)))
+        FL = sd.convert(fl[0][1], alg, leaf_for(L))
+        FG = sd.convert(fg[0][1], alg, leaf_for(G))
+    except Unsupported as e:
+        ctx.undecided('nested density functions outside the fragment: {}'.format(e))
+    ctx.check(alg.same(FL, alg.log(E)), L, 'sampled log density = log(evaluate(theta))', '',
+              'the sampled log density is not log(self.evaluate(theta))', fn=L, node=fl[0][0])
+    ctx.check(alg.same(FG, alg.D(alg.log(E))), G, 'gradient = evaluate_gradient / evaluate', '',
+              'the gradient handed to NUTS is not evaluate_gradient(theta) / evaluate(theta), the '
+              'derivative of the sampled log density', fn=G, node=fg[0][0])
